@@ -15,7 +15,7 @@ From Coq Require Import ZArith List Bool Lia.
 From Low Require Import Lib.Bits Lib.BitSeq Model.TailBitmap Spec.TailBitmapSpec Spec.TailBitmapInv
   Spec.TailBitmapObs Proofs.TailBitmapProofs Proofs.TailBitmapHist Proofs.TailBitmapChecker
   Proofs.TailBitmapSound Proofs.TailBitmapLiteral Proofs.TailBitmapWords Run.C15.
-From Low Require Import Lib.MachInt Model.TailBitmapI64 Proofs.TailBitmapI64Proofs Proofs.TailBitmapI64Checker.
+From Low Require Import Lib.MachInt Model.TailBitmapI64 Proofs.TailBitmapI64Proofs Proofs.TailBitmapI64Checker Proofs.TailBitmapPair.
 From Low Require Model.BitmapOf.
 Import ListNotations.
 Open Scope Z_scope.
@@ -355,3 +355,18 @@ Proof.
     + constructor; [cbn [abs_op]; unfold in_i64; lia|constructor].
   - eexists. eexists. split; [vm_compute; reflexivity|]. vm_compute. auto.
 Qed.
+
+(** Two TailBitmaps alive at the same time, calls interleaved (op bitmap.TailBitmap/pair): in the model
+    the objects are independent values, so each one shows exactly its own history and the pair checker
+    (each object's calls and observations, taken alone, pass [check_history]) accepts the model.  The
+    correspondence run is what ties the REAL objects to that independence (shared package-level state). *)
+Theorem C15_pair_checker_accepts_model : forall oa ob cs l,
+  model_pair oa ob cs = OOk l -> check_pair oa ob cs l = true.
+Proof. exact model_pair_accepted. Qed.
+Print Assumptions C15_pair_checker_accepts_model.
+
+Example C15_pair_nonvacuous :
+  exists l, model_pair 0 64 [(false, PSet 3); (true, PSet 70); (false, PGet1 3); (true, PGet1 3); (true, PGet1 71)] = OOk l /\
+    l = [(0, [8], 0); (64, [64], 0); (0, [8], 1); (64, [64], 1); (64, [64], 0)] /\
+    check_pair 0 64 [(false, PSet 3); (true, PSet 70); (false, PGet1 3); (true, PGet1 3); (true, PGet1 71)] l = true.
+Proof. eexists. split; [vm_compute; reflexivity|]. split; vm_compute; reflexivity. Qed.
